@@ -13,7 +13,7 @@ def B (s : String) : Bytes := bytesOf s
 
 /-! ### engines -/
 def ask (env : Env) (q : Bytes) : EM Bytes := fun s =>
-  match alookup q env.oracle with
+  match env.oracle q with
   | some a => .ok a s
   | none => .need q
 
@@ -490,6 +490,126 @@ def builtin : Nat → Bytes → List Node → Pos → Nat → EM Unit
           | .need q => .need q
       | [a0] => runErr (Node.start a0) "use-arg"
       | _ => runErr np "argc"
+    else if name = B "cast" then
+      match args with
+      | [k, .strLit ty _] => do
+        let key ← keyOf k
+        let s ← getS
+        match getKey s key with
+        | none => pure ()
+        | some v =>
+          -- doCast(v.Value, castType)
+          let lty := ty.map fun c => if 65 ≤ c && c ≤ 90 then c + 32 else c
+          let kind : Option DType :=
+            if lty = B "bool" then some .bool else if lty = B "int" then some .int
+            else if lty = B "float" then some .float else if lty = B "str" ∨ lty = B "string" then some .str else none
+          match kind with
+          | none => setPt key nilTV
+          | some t =>
+            match t, v.v with
+            | .int, .int i => setPt key ⟨.int i, .int⟩
+            | _, _ => do
+              let a ← ask env (B "cast:" ++ B t.name ++ [58] ++ renderV s.world.heap v.v)
+              match unrender 8 [] (unhex (splitAnswer a).2) with
+              | some (r, _, _) => setPt key ⟨r, t⟩
+              | none => needE (B "unmodelled:cast-answer")
+      | [_, a1] => runErr (Node.start a1) "cast-type-arg"
+      | _ => runErr np "argc"
+    else if name = B "trim" ∨ name = B "uppercase" ∨ name = B "url_decode" then
+      match args with
+      | k :: rest => do
+        let key ← keyOf k
+        let s ← getS
+        -- ctx.GetKeyConv2Str(key): missing key is a silent no-op
+        match getKey s key with
+        | none => pure ()
+        | some v =>
+          match (← conv2str env v) with
+          | none => pure ()
+          | some cont =>
+            let q : Bytes :=
+              if name = B "trim" then
+                let cut := match rest with | [.strLit c _] => c | _ => []
+                B "trim:" ++ hexOf cut ++ [58] ++ hexOf cont
+              else if name = B "uppercase" then B "upper:" ++ hexOf cont
+              else B "urldecode:" ++ hexOf cont
+            let a ← ask env q
+            let (ok, payload) := splitAnswer a
+            if ok then setPt key ⟨.str (unhex payload), .str⟩
+            else runErr np "engine-error"
+      | [] => panicE "Param[0]"
+    else if name = B "replace" then
+      match args with
+      | [k, .strLit pat _, .strLit rep _] => do
+        let key ← keyOf k
+        -- the pattern is compiled before the key is looked up
+        let c ← ask env (B "regexcompile:" ++ hexOf pat)
+        if !(splitAnswer c).1 then runErr (Node.start (args.getD 1 k)) "regex-compile" else
+        let s ← getS
+        match getKey s key with
+        | none => pure ()
+        | some v =>
+          match (← conv2str env v) with
+          | none => pure ()
+          | some cont =>
+            let a ← ask env (B "regexreplace:" ++ hexOf pat ++ [58] ++ hexOf rep ++ [58] ++ hexOf cont)
+            setPt key ⟨.str (unhex (splitAnswer a).2), .str⟩
+      | [_, a1, a2] =>
+        (match a1 with
+         | .strLit _ _ => runErr (Node.start a2) "replace-arg"
+         | _ => runErr (Node.start a1) "replace-arg")
+      | _ => runErr np "argc"
+    else if name = B "load_json" then
+      match args with
+      | a0 :: _ => do
+        let v ← evalNode f a0
+        if v.t ≠ .str then runErr (Node.start a0) "load_json-type" else
+        match v.v with
+        | .str txt =>
+          let a ← ask env (B "jsonload:" ++ hexOf txt)
+          let (ok, payload) := splitAnswer a
+          if !ok then runErr (Node.start a0) "json-syntax" else
+          let s ← getS
+          match unrender 4000 s.world.heap (unhex payload) with
+          | some (r, h', _) =>
+            modWorld fun w => { w with heap := h' }
+            ret (detect h' r)
+          | none => needE (B "unmodelled:jsonload-answer")
+        | _ => panicE "val.(string)"
+      | [] => panicE "Param[0]"
+    else if name = B "strfmt" then
+      match args with
+      | k :: (.strLit fmts _) :: rest => do
+        let key ← keyOf k
+        let vs ← evalList f rest
+        let s ← getS
+        let q := B "sprintf:" ++ hexOf fmts ++ [58] ++
+          (vs.foldl (fun (acc : Bytes) (x : TV) => acc ++ renderV s.world.heap x.v ++ [59]) [])
+        let a ← ask env q
+        setPt key ⟨.str (unhex (splitAnswer a).2), .str⟩
+      | _ :: a1 :: _ => runErr (Node.start a1) "strfmt-fmt-arg"
+      | _ => runErr np "argc"
+    else if name = B "printf" then
+      match args with
+      | a0 :: rest => fun s =>
+        -- getArgStr: an evaluation error or a non-string format means "print nothing"
+        match evalNode f a0 s with
+        | .ok v s1 =>
+          (match v.t, v.v with
+           | .str, .str fmts =>
+             if fmts.isEmpty then .ok () s1 else
+             (do
+               let vs ← evalList f rest
+               let st ← getS
+               let q := B "sprintf:" ++ hexOf fmts ++ [58] ++ (vs.foldl (fun (acc : Bytes) (x : TV) => acc ++ renderV st.world.heap x.v ++ [59]) [])
+               let a ← ask env q
+               modWorld fun w => { w with trace := Event.out (unhex (splitAnswer a).2) :: w.trace }) s1
+           | _, _ => .ok () s1)
+        | .err _ s1 => .ok () s1
+        | .panic m => .panic m
+        | .fuel => .fuel
+        | .need q => .need q
+      | [] => runErr np "argc"
     else if name = B "p" ∨ name = B "pr" ∨ name = B "void" then do
       -- probes supplied by the harness through the function table:
       -- p(...) records its evaluated arguments; pr(...) also returns the first one; void() does nothing
